@@ -68,8 +68,38 @@ def race_family(rng, n):
     return out
 
 
+def suppressed_failures(rng, n):
+    """directed family: a scope / until-scope whose body is finished and which waits for its children is cancelled by a
+    child that fails with an error type the scope suppresses (TaskCancelled from awaiting a cancelled task, TaskClosed
+    from awaiting a closed one) - possibly two such children in one time step, possibly in the step in which the
+    until-notification fires.  The block must end once, quietly."""
+    out = []
+    for _ in range(n):
+        d = rng.choice([1, 2, 3])
+        kind = rng.choice(['until-flag', 'until-flag', 'until-late', 'until-same', 'scope'])
+        victims = [['do', 1, 1, ['now'], False, [['await', ['delay', 9]], ['log', 1]]]]
+        waiters = [['do', 2, 10 + i, ['now'], rng.random() < 0.2, [['await_task', 1], ['log', 20 + i]]]
+                   for i in range(rng.choice([1, 1, 2, 3]))]
+        if rng.random() < 0.3:
+            waiters.append(['do', 2, 19, ['now'], False, [['await', ['delay', rng.choice([d, d + 1, 1])]], ['log', 29]]])
+        inner = waiters + [['log', 3]]
+        if kind == 'scope':
+            blk = ['scope', 2, inner]
+        else:
+            cond = {'until-flag': ['flag', 0], 'until-late': ['after', d + 20], 'until-same': ['after', d]}[kind]
+            blk = ['until', 2, cond, inner]
+        killer = [['await', ['delay', d]]] + \
+                 ([['cancel', 1, 9]] if rng.random() < 0.7 else [['cancel', 1, 9], ['cancel', 1, 8]]) + [['log', 5]]
+        owner = [['scope', 1, victims + [blk, ['log', 4], ['await', ['delay', 1]], ['log', 6]]], ['log', 7]]
+        roots = [owner, killer] if rng.random() < 0.5 else [killer, owner]
+        out.append(('suppressed-failures', dict(start=0, till=None, roots=roots, nflags=1, tracked=[0], nlocks=1,
+                                                nqueues=1, nchans=1, res=[])))
+    return out
+
+
 def run(ctx):
-    machine_prop.run(ctx, FAMILIES, MONITORS, extra_scenarios=race_family(ctx.rng, ctx.n(120, 3000)))
+    machine_prop.run(ctx, FAMILIES, MONITORS, extra_scenarios=race_family(ctx.rng, ctx.n(120, 3000)) +
+                     suppressed_failures(ctx.rng, ctx.n(40, 800)))
     d16_directed(ctx)
 
 
